@@ -486,7 +486,7 @@ def judge(ctx, pid, label, cases, out_i, out_m, dis, monitor, describe, harness,
     found = bool(cats)
     for k, (i, why) in sorted(cats.items(), key=lambda kv: len(cases[kv[1][0]]))[:max_cats]:
         ctx.violate("%s:%s" % (label, k), "%s fails on the implementation%s: %s; input %s" %
-                    (pid, " (the faithful model agrees with the code here)" if k.startswith("M:") else "", why, describe(cases[i])),
+                    (pid, " (the faithful model agrees with the code here)" if (k.startswith("M:") and i < len(out_m) and out_m[i] != "ORACLE") else "", why, describe(cases[i])),
                     dict(kind="monitor", case=cases[i], input=describe(cases[i]), impl=out_i[i], model=out_m[i] if i < len(out_m) else None,
                          why=why, harness=harness))
     if unexplained and not found:
